@@ -724,8 +724,11 @@ class ChainedRunner(Iterable[_ValueT]):
 
 
 def _eq(a, b):
+  if a is b:
+    return True
   try:
-    return a == b
+    # The comparison of array-likes is not a truth value.
+    return bool(a == b)
   except Exception:  # pylint: disable=broad-exception-caught
     return False
 
